@@ -85,7 +85,9 @@ for _fe in FRONTENDS:
     MIN_EVALS[f'run[{_fe}]'] = dict(_FE_MIN)
 MECH_LAST, MECH_MP, MECH_BOUNDS, MECH_UNDO = ('lens-left-at-last-evaluation', 'de-multiprocess-lens-untouched',
                                               'bounds-scaled-when-unscaled', 'undo-skips-update-optics')
-MECH_FAIL = 'scipy-failure-iterate-returned'
+MECH_FAIL = 'scipy-iterate-worse-than-start-returned'
+MECH_TRF = 'trf-start-nudged-off-bound'
+MECH_NANSOLVE = 'solve-nan-poisons-lens'
 MECH_DISP = 'index-variable-discards-dispersion'
 DE_MP_TIMEOUT_S = int(os.environ.get('C14_DE_MP_TIMEOUT_S', '300'))
 
@@ -459,10 +461,20 @@ def check_bounds_units(rec, lens, vs):
     return status
 
 
+class OperandRaised(Exception):
+    pass
+
+
 def check_merit(rec, problem, lens, ops, what):
-    want, terms = W.merit_oracle(lens, ops)
+    try:
+        want, terms = W.merit_oracle(lens, ops)
+    except Exception as e:
+        if W._error_kind(e) == 'operand':
+            raise OperandRaised(f'{type(e).__name__}: {e}')      # the analysis code under an operand raised: not C14's subject
+        raise
     got = W.fscalar(problem.sum_squared())
-    rec.close('merit-definition', got, want, 1e-12, key='merit-definition:unexplained', scale=max(abs(want), 1e-30) if np.isfinite(want) else 1.0,
+    rec.close('merit-definition', got, want, 1e-12, key='merit-definition:unexplained',
+              scale=max(abs(want), 1e-30) if np.isfinite(want) else 1.0,
               msg=f'{what}: sum_squared() = {got!r}, sum of (w (value - target))^2 over {len(ops)} operands = {want!r}',
               detail=dict(terms=terms, operands=[o[0] for o in ops]))
     return want
@@ -583,17 +595,27 @@ def judge_run(rec, info, o, fe):
     start_outside = [bool(x0[i] < lo[i] - slack[i] or x0[i] > hi[i] + slack[i]) for i in range(len(x0))]
     clipped_by_mech = any(start_outside[i] and bstat[i] == 'mech' for i in range(len(x0)))
     ok = o['fun'] <= m_start * (1 + 1e-12) + 1e-300
-    start_seen = bool(head) and np.array_equal(np.asarray(head[0][0]), x0) and head[0][1] in (o['m0'], m0_flat)
+    def near(a_, b_, rel):
+        return a_ is not None and b_ is not None and abs(a_ - b_) <= rel * max(abs(a_), abs(b_), 1e-300)
+    head_at_x0 = bool(head) and np.allclose(head[0][0], x0, rtol=0, atol=1e-12 * float(np.max(xscale(x0))))
+    start_seen = head_at_x0 and (near(head[0][1], o['m0'], 1e-9) or near(head[0][1], m0_flat, 1e-9))
     mech = 'unexplained'
     if clipped_by_mech:
         mech = MECH_BOUNDS
     elif m0_flat is not None and o['fun'] <= m0_flat * (1 + 1e-12) + 1e-300:
         mech = MECH_DISP     # the first evaluation replaced a catalogue glass by a constant index: the start merit moved
-    elif (fe.startswith('generic') or fe == 'compensator:generic') and not o['success'] and start_seen \
+    elif (fe.startswith('generic') or fe == 'compensator:generic') and start_seen and not fault0 \
             and (o['returned_point_evaluated'] or o['returned_fun_is_logged_value']):
-        # scipy.optimize.minimize stopped without success (SLSQP iteration limit, L-BFGS-B abnormal line search on the
-        # 1e10 penalty cliff ...) and handed back its current iterate; the library does not keep the best point
+        # scipy.optimize.minimize evaluated the start, later handed back an iterate with a larger objective (SLSQP at
+        # its iteration limit or converged on the flat 1e10 penalty plateau, L-BFGS-B after an abnormal line search
+        # on the penalty cliff); the library does not keep the best point it has seen
         mech = MECH_FAIL
+    elif fe in ('least-squares', 'compensator:least_squares') and bool(head) and not head_at_x0 \
+            and np.allclose(head[0][0], x0, rtol=0, atol=1e-9 * float(np.max(xscale(x0)))) \
+            and o['fun'] <= head[0][1] * (1 + 1e-12) + 1e-300:
+        # scipy's TRF moves a start that lies within 1e-10 of a bound into the interior before its first evaluation;
+        # relative to that first evaluation the objective did not get worse
+        mech = MECH_TRF
     rec.check('not-worse-than-start', ok, resid=max(o['fun'] - m_start, 0.0), tol=max(1e-12 * abs(m_start), 1e-300),
               key='not-worse-than-start:' + mech,
               msg=f'{fe}: returned objective {o["fun"]!r} is worse than the merit at the start {m_start!r}'
@@ -639,10 +661,14 @@ def judge_dependents(rec, dep, what):
                   resid=abs(a - b), tol=1e-9 * max(1.0, abs(b)),
                   msg=f'{what}: radius pickup target = {a!r}, scale*source+offset = {b!r}')
     if 'solve' in dep:
-        y, h, ymax = dep['solve']
-        tol = 1e-9 * max(1.0, abs(h), ymax)
-        rec.check('pickups-solves-satisfied', abs(y - h) <= tol, key='pickups-solves-satisfied:unexplained', resid=abs(y - h), tol=tol,
-                  msg=f'{what}: marginal ray height at the solve surface = {y!r}, requested {h!r}')
+        y, h, ymax, zK, zmax, umax = dep['solve']
+        # 1e-9 relative, widened by the rounding of the vertex positions the solve itself writes (|u| eps |z|)
+        tol = 1e-9 * max(1.0, abs(h), ymax) + 16 * np.finfo(float).eps * zmax * umax
+        poisoned = not math.isfinite(y) and not math.isfinite(zK)
+        rec.check('pickups-solves-satisfied', abs(y - h) <= tol,
+                  key='pickups-solves-satisfied:' + (MECH_NANSOLVE if poisoned else 'unexplained'), resid=abs(y - h), tol=tol,
+                  msg=f'{what}: marginal ray height at the solve surface = {y!r}, requested {h!r}'
+                      + (f'; the vertex position of the solve surface is {zK!r}' if poisoned else ''))
 
 
 def glass_index_vars(case):
@@ -655,7 +681,7 @@ def glass_index_vars(case):
     return out
 
 
-def judge_undo(rec, case, before, labels, u, what, raw0=None):
+def judge_undo(rec, case, before, labels, u, what, raw0=None, zmax_seen=0.0):
     """undo() restores the snapshot taken before the run.  As-built model of `undo-skips-update-optics` (undo re-sets the
     variables and does not re-apply pickups / solves): every entry as before the run, except that the picked-up radius
     and the solved image distance keep the values they had immediately before undo()."""
@@ -667,6 +693,8 @@ def judge_undo(rec, case, before, labels, u, what, raw0=None):
     isz = np.array([lb.endswith('.z') for lb in labels])
     fin = np.isfinite(want)
     zmax = max(1.0, float(np.max(np.abs(want[fin & isz]))) if np.any(fin & isz) else 1.0)
+    # vertex positions are stored absolutely: an excursion to |z| = Z during the run leaves rounding 8 eps Z in later gaps
+    zmax = max(zmax, 8 * np.finfo(float).eps * float(zmax_seen) / 1e-12)
     scale = np.where(isz, zmax, np.maximum(1.0, np.where(fin, np.abs(want), 1.0)))
     ix = {lb: i for i, lb in enumerate(labels)}
     gv = glass_index_vars(case) if raw0 is not None else []
@@ -695,10 +723,15 @@ def judge_undo(rec, case, before, labels, u, what, raw0=None):
     dep = bool(case.get('pickup') or case.get('solve'))
     if gv:
         cands.append((with_disp(want), (MECH_DISP,)))
+    stale = MECH_UNDO
+    if case.get('solve'):
+        pz = np.asarray(u['snap_pre_undo'], dtype=float)[ix[f"{case['solve'][0]}.z"]]
+        if not np.isfinite(pz):
+            stale = MECH_NANSOLVE       # the solved vertex is NaN: no re-application of the solve can repair it
     if dep:
-        cands.append((with_stale(want), (MECH_UNDO,)))
+        cands.append((with_stale(want), (stale,)))
     if gv and dep:
-        cands.append((with_stale(with_disp(want)), (MECH_DISP, MECH_UNDO)))
+        cands.append((with_stale(with_disp(want)), (MECH_DISP, stale)))
     alt, flags = None, ()
     for a_, f_ in cands:           # the smallest set of mechanisms that predicts the lens as left
         alt, flags = a_, f_
@@ -713,6 +746,35 @@ def judge_undo(rec, case, before, labels, u, what, raw0=None):
     rec.close('undo-restores', got, want, 1e-12, key='undo-restores:unexplained', scale=scale, alt=alt, flags=flags,
               msg=f'{what}: lens after undo() differs from the lens before the run at {[labels[i] for i in bad]} '
                   f'(got {got[bad].tolist()}, before {want[bad].tolist()}){repaired}')
+
+
+def handled_error(rec, info, o, fe):
+    """optimize() raised.  True when the exception is accounted for (recorded under a mechanism, or outside the statement)."""
+    kind = o.get('error_kind')
+    if kind == 'scipy' and infeasible_start_by_mech(info, o):
+        rec.check('bounds-units', False, key='bounds-units:' + MECH_BOUNDS,
+                  msg=f'{fe}: optimize() raised {o["error"]!r}: the start value lies inside (min_val, max_val) but '
+                      f'outside the bounds handed to scipy {o["bounds_given"]}')
+        rec.cls('run-aborted-infeasible-start')
+        return True
+    if kind == 'scipy' and 'x0' in o['error']:
+        lo = np.array([-np.inf if b[0] is None else b[0] for b in o['bounds_given']])
+        hi = np.array([np.inf if b[1] is None else b[1] for b in o['bounds_given']])
+        x0 = np.asarray(o['x0'], dtype=float)
+        sl = 1e-12 * np.maximum(1.0, np.abs(x0))
+        if np.all(x0 >= lo - sl) and np.all(x0 <= hi + sl) and (np.any(np.abs(x0 - lo) <= sl) or np.any(np.abs(x0 - hi) <= sl)):
+            # the previous run ended ON a bound; scipy's own rounding rejects such a start.  The statement says nothing
+            # about optimize() accepting every feasible start: recorded, no verdict
+            rec.cls('restart-on-bound-rejected-by-scipy')
+            rec.event('scipy_rejected_start_on_bound')
+            return True
+    if kind == 'operand':
+        # an operand's analysis code raised (e.g. rays outside the Chebyshev normalisation box): optimize() did not
+        # return, which the statement does not cover; the operand's behaviour belongs to other properties
+        rec.cls('optimize-aborted-by-operand-exception')
+        rec.event('operand_exceptions_during_optimize')
+        return True
+    return False
 
 
 def infeasible_start_by_mech(info, o):
@@ -770,19 +832,17 @@ def case_opt(case, rec):
     stack = []
     nontrivial = False
     nrun = 0
+    zseen = 0.0
     for step in case['seq']:
         if step == 'o':
             o = W.observe_run(c, fe, case['opts'], nan_at=(case.get('nan_at') if nrun == 0 else None),
                               np_seed=case['np_seed'] + nrun)
             nrun += 1
             if 'error' in o:
-                if o['error_tb_in_scipy'] and infeasible_start_by_mech(info, o):
-                    rec.check('bounds-units', False, key='bounds-units:' + MECH_BOUNDS,
-                              msg=f'{fe}: optimize() raised {o["error"]!r}: the start value lies inside (min_val, max_val) but '
-                                  f'outside the bounds handed to scipy {o["bounds_given"]}')
-                    rec.cls('run-aborted-infeasible-start')
+                if handled_error(rec, info, o, fe):
                     return
                 raise o['error_obj']
+            zseen = max(zseen, o['zmax_seen'])
             stack.append((o['snap_before'], o['snap_labels'], o['raw0']))
             info['first_run'] = (nrun == 1)
             judge_run(rec, info, o, fe)
@@ -812,7 +872,7 @@ def case_opt(case, rec):
                 (before, labels), raw0 = W.flat_snapshot(c.lens), None
                 what = f'{fe}: undo() with nothing to undo'
             u = W.observe_undo(c)
-            judge_undo(rec, case, before, labels, u, what, raw0)
+            judge_undo(rec, case, before, labels, u, what, raw0, zseen)
             if has_dep:
                 c.lens.update()      # later steps start from a consistent lens (the stale state is recorded above)
             rec.check('undo-history', u['stack_len'] == len(stack), key='undo-history:unexplained',
@@ -849,15 +909,12 @@ def case_de_mp(case, rec, info):
             rec.cls('opt-no-operands-skipped')
             return
         if 'error' in o:
-            if o['error_tb_in_scipy'] and infeasible_start_by_mech(info, o):
-                rec.check('bounds-units', False, key='bounds-units:' + MECH_BOUNDS,
-                          msg=f'{fe}: optimize() raised {o["error"]!r}: feasible start outside the bounds handed to scipy')
-                rec.cls('run-aborted-infeasible-start')
+            if handled_error(rec, info, o, fe):
                 return
             raise RuntimeError('c14_workers: ' + o['error'])
         rec.cls('fe-' + fe + '-rep')
         judge_run(rec, info, o, fe)
-        judge_undo(rec, case, o['snap_before'], o['snap_labels'], u, f'{fe}: undo() after optimize()', o['raw0'])
+        judge_undo(rec, case, o['snap_before'], o['snap_labels'], u, f'{fe}: undo() after optimize()', o['raw0'], o['zmax_seen'])
         res[fe].append((o['x'], o['fun'], o['nfev']))
         if fe == 'de-mp':
             rec.event('de_mp_parent_side_evaluations', o['n_eval'])
@@ -880,7 +937,11 @@ def case_de_mp(case, rec, info):
 def check_case(case, rec):
     fam = case['family']
     if fam == 'merit':
-        return case_merit(case, rec)
+        try:
+            return case_merit(case, rec)
+        except OperandRaised:
+            rec.cls('merit-operand-raises-skipped')
+            return
     if fam == 'vars':
         return case_vars(case, rec)
     return case_opt(case, rec)
